@@ -777,10 +777,21 @@ def run_pair(sh, np, nt, O, frclim, routes, i):
     try:
         Sarg, Larg = arg_of(fs_), arg_of(fl_)
         routes.last.clear()
+        # the free acceleration as the caller holds it: every third pair Fortran-ordered
+        As_in = np.asfortranarray(ref.As.copy()) if i % 3 == 2 else ref.As.copy()
+        f_in = freq.copy()
+        held = [x for arg in (Sarg, Larg) if isinstance(arg, list)
+                for x in arg if hasattr(x, "tobytes")] + [As_in, f_in]
+        snaps = [np.array(x, copy=True) for x in held]
         with warnings.catch_warnings():
             warnings.simplefilter("ignore")
             with np.errstate(all="ignore"):
-                res = frclim.ntfl(Sarg, Larg, ref.As.copy(), freq.copy())
+                res = frclim.ntfl(Sarg, Larg, As_in, f_in)
+        sh.count("mon:ntfl-inputs-unmutated")
+        if any(not np.array_equal(a, b, equal_nan=True) for a, b in zip(held, snaps)):
+            sh.violation("ntfl-inputs-unmutated", case,
+                         {"changed": [k_ for k_, (a, b) in enumerate(zip(held, snaps))
+                                      if not np.array_equal(a, b, equal_nan=True)]}, tags)
     except Exception as e:
         sh.violation("exception:ntfl", case, {"exc": repr(e)[:400]}, tags)
         return
